@@ -131,3 +131,9 @@ CASES = [
          loops={0: {"invariant": [inv_fwd]}}, ensures=[("argcummin", ens_fwd)], timeout=20),
 ]
 MIN_OBLIGATIONS = 10
+
+from pyvc.api import bounded_via_script
+bounded = bounded_via_script("C10")
+ASSUMPTIONS.append("bounded stand-in (labelled, not a proof) for everything outside the two proved kernels (k-mer decomposition, direct and bucketed tables incl. "
+                   "all constructors, pickling, matching with masks and similarity rules, minimizer / syncmer / mincode selectors): the compiled code vs naive "
+                   "definitions on all DNA sequences of length <= 4 (5 thorough) and seeded random reference sets (bounded/C10.py)")
